@@ -20,6 +20,75 @@ func init() {
 	addRules("C34", rulesC34FilterOrder)
 	addRules("C38", rulesC38BufferGrowth)
 	addRules("C10", rulesC10FreshLabelValues)
+	addRules("C05", rulesC05SelectorContract)
+}
+
+// C05 (third seed): matchingStores pools, over all selected stores, the label sets TSDBSelector.MatchLabelSets
+// kept and sends them to every store as matchers. A store that was kept as a whole must contribute its label
+// sets too; "nil = everything" is only right when nothing is filtered at all. So MatchLabelSets may return a nil
+// list only without a selector configuration or without label sets; every other return hands back the list the
+// relabel rules produced.
+func rulesC05SelectorContract(c *Ctx) {
+	const rel, rule = "pkg/store", "selector-returns-kept-label-sets"
+	c.Rule(rule, "MatchLabelSets returns nil label sets only when no selector is configured or none were given", 1)
+	p := c.Load("pkg/store")
+	if p == nil {
+		return
+	}
+	fn := p.Func(rel, "TSDBSelector", "MatchLabelSets")
+	if fn == nil {
+		c.Incomplete(rule, rel+".(*TSDBSelector).MatchLabelSets", "", "function not found")
+		return
+	}
+	info := fn.Info()
+	bad, n := "", 0
+	inspectNoLit(fn.Body(), func(nd ast.Node) bool {
+		ret, ok := nd.(*ast.ReturnStmt)
+		if !ok || len(ret.Results) != 2 {
+			return true
+		}
+		n++
+		if !isNil(info, ret.Results[1]) {
+			// the list produced by the relabel rules
+			if !strings.Contains(expandDefText(fn, info, ret.Results[1]), "runRelabelRules(") {
+				bad = "`" + stmtText(p, ret) + "` does not return the label sets the relabel rules kept"
+			}
+			return true
+		}
+		justified := false
+		for _, g := range guardsOf(p, fn, ret) {
+			if !g.Pol {
+				continue
+			}
+			ok := true
+			var check func(e ast.Expr)
+			check = func(e ast.Expr) {
+				e = unparen(e)
+				if b, isB := e.(*ast.BinaryExpr); isB && b.Op == token.LOR {
+					check(b.X)
+					check(b.Y)
+					return
+				}
+				t := canon(e)
+				if !(strings.HasSuffix(t, ".relabelConfig==nil") || t == "len("+namesOf(fn).P(0)+")==0") {
+					ok = false
+				}
+			}
+			check(g.Cond)
+			if ok {
+				justified = true
+			}
+		}
+		if !justified {
+			bad = "`" + stmtText(p, ret) + "` answers `all label sets` (nil) although a selector is configured and label sets were given"
+		}
+		return true
+	})
+	if n == 0 {
+		bad = "no return found"
+	}
+	c.Check(bad == "", rule, rel+".(*TSDBSelector).MatchLabelSets", p.Pos(fn.Decl.Pos()), "kept-label-sets-not-returned",
+		bad+": the proxy then generates matchers from the other stores' label sets only, and the store that was kept as a whole rejects the request by its own external labels — it is pruned although it holds matching series")
 }
 
 // C34 (third seed): the duplicate filter hides a block when another visible block covers its sources, the
